@@ -427,10 +427,18 @@ def _exc_desc(e):
     return {"raised": type(e).__name__, "message": str(e)[:120]}
 
 
+def _release_pipelines():
+    """sink_to_list() registers every sink in streamz.sinks._global_sinks for good: the pipelines of earlier cases (and
+    everything they emitted) would stay alive for the whole run (gigabytes per worker in the thorough tier)"""
+    from streamz.sinks import _global_sinks
+    _global_sinks.clear()
+
+
 def run_case(spec, env, split, want_trace=False):
     """run one (table, split) through a fresh pipeline; first failing clause only"""
     from streamz import Stream
     from streamz.dataframe import DataFrame
+    _release_pipelines()
     res = CaseResult()
     trace = [] if want_trace else None
     mode = spec.mode
@@ -983,6 +991,7 @@ def _run_pipeline(spec, env, split, first, state, fresh):
 
 def run_resume_case(spec, env, split):
     """returns (fail or None, runs, transitions, state hashes, base_exceptions)"""
+    _release_pipelines()
     runs = 1
     try:
         base = _run_pipeline(spec, env, split, 0, None, True)
